@@ -181,12 +181,12 @@ def prepVal : Option (List Char) → List Char
 
 /-! ## names -/
 
-def nSvg : List Char := "svg".toList
-def nStyle : List Char := "style".toList
-def nMetadata : List Char := "metadata".toList
-def nDefs : List Char := "defs".toList
-def nForeignObject : List Char := "foreignObject".toList
-def cssMime : List Char := "text/css".toList
+def nSvg : List Char := ['s', 'v', 'g']
+def nStyle : List Char := ['s', 't', 'y', 'l', 'e']
+def nMetadata : List Char := ['m', 'e', 't', 'a', 'd', 'a', 't', 'a']
+def nDefs : List Char := ['d', 'e', 'f', 's']
+def nForeignObject : List Char := ['f', 'o', 'r', 'e', 'i', 'g', 'n', 'O', 'b', 'j', 'e', 'c', 't']
+def cssMime : List Char := ['t', 'e', 'x', 't', '/', 'c', 's', 's']
 
 /-- the bytes before the first `:` if there is one -/
 def prefixOf (n : List Char) : Option (List Char) :=
@@ -194,25 +194,25 @@ def prefixOf (n : List Char) : Option (List Char) :=
 
 /-- `isNameAttr`: values that are identifiers / references, never lengths -/
 def isNameAttr (n : List Char) : Bool :=
-  n == "href".toList || n == "font-family".toList || n == "id".toList || n == "class".toList || n.contains ':'
+  n == ['h', 'r', 'e', 'f'] || n == ['f', 'o', 'n', 't', '-', 'f', 'a', 'm', 'i', 'l', 'y'] || n == ['i', 'd'] || n == ['c', 'l', 'a', 's', 's'] || n.contains ':'
 
 /-- the default-valued attributes that are dropped (`val` after the dimension rewrite) -/
 def isDefaultAttr (o : SvgOpts) (tag n val : List Char) : Bool :=
   (tag == nSvg &&
-    ((o.inline && n == "xmlns".toList) ||
-     (n == "version".toList && val == "1.1".toList) ||
-     (n == "x".toList && val == ['0']) ||
-     (n == "y".toList && val == ['0']) ||
-     (n == "preserveAspectRatio".toList && val == "xMidYMid meet".toList) ||
-     (n == "baseProfile".toList && val == "none".toList) ||
-     (n == "contentScriptType".toList && val == "application/ecmascript".toList) ||
-     (n == "contentStyleType".toList && val == cssMime))) ||
-  (tag == nStyle && n == "type".toList && val == cssMime)
+    ((o.inline && n == ['x', 'm', 'l', 'n', 's']) ||
+     (n == ['v', 'e', 'r', 's', 'i', 'o', 'n'] && val == ['1', '.', '1']) ||
+     (n == ['x'] && val == ['0']) ||
+     (n == ['y'] && val == ['0']) ||
+     (n == ['p', 'r', 'e', 's', 'e', 'r', 'v', 'e', 'A', 's', 'p', 'e', 'c', 't', 'R', 'a', 't', 'i', 'o'] && val == ['x', 'M', 'i', 'd', 'Y', 'M', 'i', 'd', ' ', 'm', 'e', 'e', 't']) ||
+     (n == ['b', 'a', 's', 'e', 'P', 'r', 'o', 'f', 'i', 'l', 'e'] && val == ['n', 'o', 'n', 'e']) ||
+     (n == ['c', 'o', 'n', 't', 'e', 'n', 't', 'S', 'c', 'r', 'i', 'p', 't', 'T', 'y', 'p', 'e'] && val == ['a', 'p', 'p', 'l', 'i', 'c', 'a', 't', 'i', 'o', 'n', '/', 'e', 'c', 'm', 'a', 's', 'c', 'r', 'i', 'p', 't']) ||
+     (n == ['c', 'o', 'n', 't', 'e', 'n', 't', 'S', 't', 'y', 'l', 'e', 'T', 'y', 'p', 'e'] && val == cssMime))) ||
+  (tag == nStyle && n == ['t', 'y', 'p', 'e'] && val == cssMime)
 
 /-- attributes in a namespace other than `xlink:` / `xml:` (and other than `xmlns:xlink`) are dropped -/
 def isForeignAttr (n : List Char) : Bool :=
   match prefixOf n with
-  | some p => p != "xlink".toList && p != "xml".toList && n != "xmlns:xlink".toList
+  | some p => p != ['x', 'l', 'i', 'n', 'k'] && p != ['x', 'm', 'l'] && n != ['x', 'm', 'l', 'n', 's', ':', 'x', 'l', 'i', 'n', 'k']
   | none => false
 
 /-- start tag name as written: the `svg:` prefix is removed -/
@@ -246,23 +246,29 @@ structure St where
   mime : List Char
   deriving DecidableEq, Repr
 
-/-- the `AttributeToken` branch: what is written (nothing = attribute dropped) and the new `defaultStyleType` -/
-def attrStep (num : List Char → List Char) (o : SvgOpts) (st : St) (n : List Char) (v : Option (List Char)) :
-    List PTok × List Char :=
+/-- the value after `buffer.go` and the dimension rewrite (`val` at the default-attribute test) -/
+def attrVal1 (num : List Char → List Char) (n : List Char) (v : Option (List Char)) : List Char :=
   let val0 := prepVal v
   let nm := dimension val0
-  let val1 := if nm.1 + nm.2 == val0.length && n != "version".toList && !isNameAttr n
+  if nm.1 + nm.2 == val0.length && n != ['v', 'e', 'r', 's', 'i', 'o', 'n'] && !isNameAttr n
     then (shortenDim num val0).1 else val0
+
+/-- the rest of the `AttributeToken` branch for the value `val1` -/
+def attrEmit (num : List Char → List Char) (o : SvgOpts) (st : St) (n val1 : List Char) : List PTok × List Char :=
   if isDefaultAttr o st.tag n val1 then ([], st.mime)
   else if isForeignAttr n then ([], st.mime)
-  else if st.tag == nSvg && n == "contentStyleType".toList then
+  else if st.tag == nSvg && n == ['c', 'o', 'n', 't', 'e', 'n', 't', 'S', 't', 'y', 'l', 'e', 'T', 'y', 'p', 'e'] then
     let m := Verif.Model.DataURI.mediatype val1
     ([.tok (mkAttr n (escapeAttrVal m))], m)
   else if n == nStyle then ([.styleAttr n st.mime val1], st.mime)
   else if n == ['d'] then ([.pathAttr n val1], st.mime)
-  else if n == "viewBox".toList then ([.tok (mkAttr n (escapeAttrVal (viewBox num val1)))], st.mime)
+  else if n == ['v', 'i', 'e', 'w', 'B', 'o', 'x'] then ([.tok (mkAttr n (escapeAttrVal (viewBox num val1)))], st.mime)
   else if colorAttrs.contains n && colorApplies val1 then ([.tok (mkAttr n (escapeAttrVal (colorVal val1)))], st.mime)
   else ([.tok (mkAttr n (escapeAttrVal val1))], st.mime)
+
+/-- the `AttributeToken` branch: what is written (nothing = attribute dropped) and the new `defaultStyleType` -/
+def attrStep (num : List Char → List Char) (o : SvgOpts) (st : St) (n : List Char) (v : Option (List Char)) :
+    List PTok × List Char := attrEmit num o st n (attrVal1 num n v)
 
 /-- `skipTag`: number of tokens consumed after the start tag (through the matching end tag or `/>`) -/
 def skipLen : Nat → List STok → Nat
@@ -310,9 +316,9 @@ def collapseSkip : List STok → Option Nat
 /-- end tag as written: white space before `>` removed, `svg:` prefix removed -/
 def endData (d n : List Char) : List Char :=
   let d1 := if d.length > 3 + n.length then d.take (2 + n.length) ++ ['>'] else d
-  if n.take 4 == "svg:".toList then d1.take 2 ++ d1.drop 6 else d1
+  if n.take 4 == ['s', 'v', 'g', ':'] then d1.take 2 ++ d1.drop 6 else d1
 
-def endName (n : List Char) : List Char := if n.take 4 == "svg:".toList then n.drop 4 else n
+def endName (n : List Char) : List Char := if n.take 4 == ['s', 'v', 'g', ':'] then n.drop 4 else n
 
 /-- The loop of `svg.go`.  The `Nat` = number of tokens already consumed by look-ahead code (`skipTag`,
 `printTag`, the PI loop, the empty-element branch); 0 at the call. -/
@@ -348,8 +354,8 @@ def plan (num : List Char → List Char) (o : SvgOpts) : St → Nat → List STo
     | .startTagCloseVoid => PTok.tok t :: plan num o { st with tag := [] } 0 r
     | .endTag d n => PTok.tok (.endTag (endData d n) (endName n)) :: plan num o { st with tag := [] } 0 r
 
-def cdataOpen : List Char := "<![CDATA[".toList
-def cdataEnd : List Char := "]]>".toList
+def cdataOpen : List Char := ['<', '!', '[', 'C', 'D', 'A', 'T', 'A', '[']
+def cdataEnd : List Char := [']', ']', '>']
 
 /-- closing the holes -/
 def fill (e : Env) : PTok → STok
